@@ -52,6 +52,14 @@ CHECKS = {
           "be rejected by every pass.",
           "Read/write sets are a static over-approximation from the IR; CL/method-port constraints are not generated in this version.",
           "DESIGN.md 3/C02"),
+  "C11": ("exploration",
+          "property-based testing (Hypothesis): template-generated cyclic designs classified by brute force with the reference evaluator, run under every scheduler",
+          "False loops (cyclic block graph, acyclic bit graph through slices/fields/nets/child components), true ring loops classified "
+          "exhaustively per input (no fixed point / only fixed-point attractors / mixed) and rings containing update_once are run under "
+          "DefaultPassGroup and Mamba2020 (must settle or raise UpblkCyclicError as classified; returned state must be a fixed point; false "
+          "loops must equal the reference) and under Simple/HeuTopo/Unroll (must reject); a watchdog catches hangs.",
+          "Loop values are at most 3 bits wide so the classification is exhaustive; wider or data-dependent loops are outside the generator.",
+          "DESIGN.md 3/C11"),
 }
 
 NOT_YET = {}
